@@ -65,6 +65,8 @@ func buildDesc(inp M) (in []byte, data []byte) {
 	return b.Bytes()[:avail], data
 }
 
+var reusedDescriptor signature.EFIVariableAuthentication2
+
 func runDesc(sc M) {
 	id := sc["sc"]
 	inp := sc["inp"].(M)
@@ -166,6 +168,13 @@ func runDesc(sc M) {
 		src.Reset()
 		src.Write(bytes.Repeat([]byte{0xEE}, len(in)+64))
 		check("buffer(reused)", &du, used, rest2)
+		// one descriptor object decoded into again and again (it still holds the previous descriptor's fields)
+		src2 := bytes.NewBuffer(append([]byte{}, in...))
+		if err := reusedDescriptor.Unmarshal(src2); err != nil {
+			fail("Unmarshal into a reused object failed: %v", err)
+			return nil
+		}
+		check("object(reused)", &reusedDescriptor, len(in)-src2.Len(), append([]byte{}, src2.Bytes()...))
 		return nil
 	})
 	ev := M{"sc": id, "ev": "call-end", "call": "decode:" + kind, "len": len(in), "outcome": o.Kind, "alloc": o.Alloc, "ms": o.Ms, "accepted": accepted, "bad": bad, "wf": sc["wf"]}
